@@ -128,17 +128,15 @@ def r_label_closure(repo, rep, R='R19.1'):
 
 
 def r_dispatch(repo, rep, R='R19.2'):
-    am = repo.module('depccg/argparse.py')
-    fn = am.get('parse_args')
+    from ..cli import cli_options
+    am, fn, options = cli_options(repo)
     choices = {}
-    for n in ast.walk(fn):
-        if isinstance(n, ast.Call) and isinstance(n.func, ast.Attribute) and n.func.attr == 'add_argument' and \
-                any(isinstance(a, ast.Constant) and a.value == '--format' for a in n.args):
-            kw = {k.arg: k.value for k in n.keywords}
-            ch = am.literal(kw.get('choices'))
-            if not isinstance(ch, (ast.List, ast.Tuple)):
-                raise AnalysisError('depccg/argparse.py:%s --format choices are not a literal list' % n.lineno)
-            choices[src(n.func.value)] = ([e.value for e in ch.elts], kw.get('default'), n)
+    for o in options:
+        if '--format' in o.flags:
+            chs = o.strings('choices', am)
+            if chs is None:
+                raise AnalysisError('depccg/argparse.py:%s the --format choices cannot be read off the source' % getattr(o.node, 'lineno', '?'))
+            choices[o.lang or show(o.receiver)[:40]] = (chs, o.kw.get('default'), o.node)
     if len(choices) != 2:
         raise AnalysisError('depccg/argparse.py: expected two --format options, found %d' % len(choices))
     pm = repo.module('depccg/printer/__init__.py')
@@ -185,7 +183,7 @@ def r_dispatch(repo, rep, R='R19.2'):
         rep.check(not missing, R, 'depccg/argparse.py:%s parse_args' % node.lineno, 'argparse:%s:formats' % parser,
                   'every --format choice of %s (%d) is dispatched by to_string' % (parser, len(chs)),
                   '--format choices %s of %s are not handled by to_string (KeyError: unsupported format)' % (missing, parser))
-        d = default.value if isinstance(default, ast.Constant) else None
+        d = default[1] if default is not None and default[0] == 'const' else None
         rep.check(d in chs, R, 'depccg/argparse.py:%s parse_args' % node.lineno, 'argparse:%s:default' % parser,
                   'the default format %r of %s is one of its choices' % (d, parser), 'default format %r is not among the choices' % d)
     # the failure placeholder's score is -inf: serialisers of the score must accept non-finite floats
